@@ -573,6 +573,56 @@ pub fn build_honest_tx(
     Some(tx_from_inputs(ins, outs, &payer, plan.ts, vec![]))
 }
 
+/// Honest creation of an NFT (Bound transaction) from one spendable output of `plan.payer`, built
+/// the way Wallet::create_bound_transaction lays it out: input = the output that gives the NFT
+/// its identity; outputs = [Bound(creator key, 1), Normal(payee, deposit), Bound(uuid, 0), change].
+pub fn build_honest_nft_tx(
+    node: &Node,
+    plan: &TxPlan,
+    for_block_id: u64,
+    reserved: &mut std::collections::BTreeSet<SaitoUTXOSetKey>,
+) -> Option<Transaction> {
+    use saito_core::core::consensus::slip::SlipType;
+    let payer = key(plan.payer);
+    let s = node
+        .spendable_of(&payer.0, for_block_id)
+        .into_iter()
+        .find(|s| !reserved.contains(&s.utxoset_key) && s.slip_type == SlipType::Normal && s.amount > plan.fee.saturating_add(1))?;
+    reserved.insert(s.utxoset_key);
+    let deposit = plan.amount.clamp(1, s.amount - plan.fee);
+    let change = s.amount - plan.fee - deposit;
+    let mut t = Transaction::default();
+    t.transaction_type = TransactionType::Bound;
+    t.timestamp = plan.ts;
+    let mut input = s.clone();
+    input.generate_utxoset_key();
+    let uuid = saito_core::core::consensus::wallet::Wallet::create_nft_uuid(&input, "verif");
+    t.add_from_slip(input);
+    let mut o1 = Slip::default();
+    o1.public_key = payer.0;
+    o1.amount = 1;
+    o1.slip_type = SlipType::Bound;
+    let mut o2 = Slip::default();
+    o2.public_key = key(plan.payee).0;
+    o2.amount = deposit;
+    let mut o3 = Slip::default();
+    o3.public_key = uuid;
+    o3.amount = 0;
+    o3.slip_type = SlipType::Bound;
+    t.add_to_slip(o1);
+    t.add_to_slip(o2);
+    t.add_to_slip(o3);
+    if change > 0 {
+        let mut c = Slip::default();
+        c.public_key = payer.0;
+        c.amount = change;
+        t.add_to_slip(c);
+    }
+    t.sign(&payer.1);
+    t.generate(&payer.0, 0, 0);
+    Some(t)
+}
+
 /// A zero-value "carrier" transaction (blocks with id>1 need at least one transaction).
 pub fn carrier_tx(signer: &KeyPair, ts: u64) -> Transaction {
     let mut t = Transaction::default();
